@@ -1,7 +1,7 @@
 """Per-property checks: scopes, jobs, evidence.  See DESIGN.md section 5."""
 import json, os, sys, time
 import sfv
-from sfv import Run, p1_job, log
+from sfv import Run, p1_job, pair_job, log
 
 CHECKS = {}
 
@@ -31,10 +31,10 @@ def c02(tier):
     else:
         plan = [(1, 5, A), (2, 6, A), (3, 7, A), (4, 8, A), (5, 9, [-2, 0, 3]), (6, 10, [-2, 0, 3]), (7, 10, [-2, 0, 3])]
     for n, L, alpha in plan:
-        p1_job(run, "w-n%d" % n, "MC_Def", {"prop": "C02", "cfgs": cfgs(kinds, [n]), "alphabet": alpha, "unit": 1, "maxlen": L, "extras": True})
+        run.submit(p1_job, "w-n%d" % n, "MC_Def", {"prop": "C02", "cfgs": cfgs(kinds, [n]), "alphabet": alpha, "unit": 1, "maxlen": L, "extras": True})
     # decimal unit: same definitions on inputs k/10 (not exactly representable): the statement allows rounding noise
     # proportional to the magnitude; sqrt-type outputs amplify 1e-16 to 1e-8, hence 1e-6 here (C16's figure)
-    p1_job(run, "w-dec", "MC_Def", {"prop": "C02", "cfgs": cfgs(kinds, [2, 3]), "alphabet": [-7, 0, 3, 12], "unit": 10, "maxlen": 5 if tier == "quick" else 7, "extras": True,
+    run.submit(p1_job, "w-dec", "MC_Def", {"prop": "C02", "cfgs": cfgs(kinds, [2, 3]), "alphabet": [-7, 0, 3, 12], "unit": 10, "maxlen": 5 if tier == "quick" else 7, "extras": True,
                                    "eps": [1, 1000000]})
     return run.finish("every input sequence over the alphabet up to maxlen, for every listed view and window length; "
                       "non-trivial = states in which the definition fixes the answer (exact value, fixed-point value, None or hold)")
@@ -50,7 +50,7 @@ def c05(tier):
     plan = [(1, 5), (2, 6), (3, 7), (4, 8)] if tier == "quick" else [(1, 7), (2, 8), (3, 9), (4, 10), (5, 10), (6, 11)]
     for alpha in ([0, 1, 3], [-2, 0, 2]):
         for n, L in plan:
-            p1_job(run, "rsi-n%d-a%d" % (n, alpha[0]), "MC_Def", {"prop": "C05", "cfgs": cfgs(kinds, [n]), "alphabet": alpha, "unit": 1, "maxlen": L})
+            run.submit(p1_job, "rsi-n%d-a%d" % (n, alpha[0]), "MC_Def", {"prop": "C05", "cfgs": cfgs(kinds, [n]), "alphabet": alpha, "unit": 1, "maxlen": L})
     return run.finish(RULE_DEF)
 
 @check("C06")
@@ -63,7 +63,7 @@ def c06(tier):
         plan = [(3, 7, [0, 1, 2, 3]), (4, 8, [0, 1, 2, 3]), (5, 9, [0, 1, 3]), (6, 10, [0, 1, 3]), (7, 10, [0, 1, 3]),
                 (3, 7, [-2, 0, 1, 2]), (4, 8, [-2, 0, 1]), (8, 11, [0, 2])]
     for n, L, alpha in plan:
-        p1_job(run, "trend-n%d-a%d" % (n, alpha[0]), "MC_Def", {"prop": "C06", "cfgs": cfgs(kinds, [n]), "alphabet": alpha, "unit": 1, "maxlen": L})
+        run.submit(p1_job, "trend-n%d-a%d" % (n, alpha[0]), "MC_Def", {"prop": "C06", "cfgs": cfgs(kinds, [n]), "alphabet": alpha, "unit": 1, "maxlen": L})
     return run.finish(RULE_DEF)
 
 @check("C13")
@@ -71,8 +71,8 @@ def c13(tier):
     run = Run("C13", tier, "model_checking")
     cf = [{"k": "WelfordRolling"}, {"k": "Drawdown"}, {"k": "LnReturn"}]
     L = 7 if tier == "quick" else 9
-    p1_job(run, "roll-int", "MC_Def", {"prop": "C13", "cfgs": cf, "alphabet": [1, 2, 4, 7], "unit": 1, "maxlen": L, "extras": True})
-    p1_job(run, "roll-dec", "MC_Def", {"prop": "C13", "cfgs": cf, "alphabet": [5, 12, 20, 31], "unit": 10, "maxlen": L - 1, "extras": True,
+    run.submit(p1_job, "roll-int", "MC_Def", {"prop": "C13", "cfgs": cf, "alphabet": [1, 2, 4, 7], "unit": 1, "maxlen": L, "extras": True})
+    run.submit(p1_job, "roll-dec", "MC_Def", {"prop": "C13", "cfgs": cf, "alphabet": [5, 12, 20, 31], "unit": 10, "maxlen": L - 1, "extras": True,
                                       "eps": [1, 1000000]})
     return run.finish(RULE_DEF)
 
@@ -100,8 +100,8 @@ def c11(tier):
         plan = [(1, 7, [0, 1, 3]), (2, 8, [0, 1, 3]), (3, 9, [0, 1, 3]), (4, 9, [0, 1, 3]), (5, 10, [1, 2, 4]), (6, 10, [0, 1, 3]),
                 (7, 12, [0, 3]), (8, 13, [1, 4]), (10, 14, [0, 3]), (12, 15, [1, 4]), (16, 18, [0, 3]), (20, 18, [1, 4])]
     for n, L, alpha in plan:
-        p1_job(run, "ehlers-n%d" % n, "MC_Def", {"prop": "C11", "cfgs": views(n), "alphabet": alpha, "unit": 1, "maxlen": L})
-    p1_job(run, "laguerre", "MC_Def", {"prop": "C11", "cfgs": lag, "alphabet": [-2, 0, 1, 3], "unit": 1, "maxlen": 6 if tier == "quick" else 8})
+        run.submit(p1_job, "ehlers-n%d" % n, "MC_Def", {"prop": "C11", "cfgs": views(n), "alphabet": alpha, "unit": 1, "maxlen": L})
+    run.submit(p1_job, "laguerre", "MC_Def", {"prop": "C11", "cfgs": lag, "alphabet": [-2, 0, 1, 3], "unit": 1, "maxlen": 6 if tier == "quick" else 8})
     return run.finish(RULE_DEF)
 
 @check("C14")
@@ -112,11 +112,11 @@ def c14(tier):
     cf += [{"k": g, "v": v, "c": [x]} for g in ("GTE", "LTE") for v in ([1, 2], [0, 1], [-3, 4]) for x in K]
     cf += [{"k": "Tanh", "c": [x]} for x in K] + [E, {"k": "Constant", "v": [3, 2]}, {"k": "Constant", "v": [-1, 4]}]
     L = 4 if tier == "quick" else 6
-    p1_job(run, "pointwise", "MC_Def", {"prop": "C14", "cfgs": cf, "alphabet": [-3, 0, 1, 4], "unit": 2, "maxlen": L, "bitexact": True})
+    run.submit(p1_job, "pointwise", "MC_Def", {"prop": "C14", "cfgs": cf, "alphabet": [-3, 0, 1, 4], "unit": 2, "maxlen": L, "bitexact": True})
     Kp = [E, {"k": "LnReturn"}, sma(2), {"k": "Constant", "v": [5, 4]}]
     cfp = [{"k": b, "c": [x, y]} for b in ("Add", "Subtract", "Multiply", "Divide") for x in Kp for y in Kp if "LnReturn" in (x["k"], y["k"])]
     cfp += [{"k": g, "v": [1, 4], "c": [{"k": "LnReturn"}]} for g in ("GTE", "LTE")] + [{"k": "Tanh", "c": [{"k": "LnReturn"}]}]
-    p1_job(run, "pointwise-pos", "MC_Def", {"prop": "C14", "cfgs": cfp, "alphabet": [1, 2, 3, 8], "unit": 2, "maxlen": L, "bitexact": True})
+    run.submit(p1_job, "pointwise-pos", "MC_Def", {"prop": "C14", "cfgs": cfp, "alphabet": [1, 2, 3, 8], "unit": 2, "maxlen": L, "bitexact": True})
     return run.finish(RULE_DEF)
 
 def c04_cfgs(n):
@@ -134,10 +134,10 @@ def c04(tier):
             alpha = [-2, 0, 2]
         sc = {"prop": "C04", "cfgs": c04_cfgs(n), "alphabet": alpha, "unit": 1, "maxlen": L}
         # recurrence (Ema, every alpha) and kernel (Alma) clauses: the definition
-        p1_job(run, "avg-def-n%d" % n, "MC_Def", sc)
+        run.submit(p1_job, "avg-def-n%d" % n, "MC_Def", sc)
         # interval / constant / monotone for the averages the statement names (default alpha)
         sc2 = dict(sc); sc2["cfgs"] = [sma(n), ema(n), {"k": "Alma", "n": n}, {"k": "Alma", "n": n, "sigma": [3, 1], "offset": [1, 2]}]
-        p1_job(run, "avg-rel-n%d" % n, "MC_C04", sc2, nontrivial_keys=("interval",))
+        run.submit(p1_job, "avg-rel-n%d" % n, "MC_C04", sc2, nontrivial_keys=("interval",))
         # affine clause: the same history run through x -> a*x+b
         for a, b in (([2, 1], [5, 1]), ([1, 2], [-1, 1]), ([3, 1], [0, 1])):
             rel_job(run, "avg-affine-n%d-a%d_%d" % (n, a[0], a[1]), "C04", sc2["cfgs"], alpha, 1, min(L, 6), a, b, "affine")
@@ -154,8 +154,8 @@ def rel_job(run, name, prop, cf, alphabet, unit, L, a, b, mode, bitexact=False, 
     if cfgs2:
         sc["cfgs2"] = cfgs2
     sc2 = {"cfgs": cfgs2 or cf, "alphabet": alpha2, "unit": unit2, "maxlen": L}
-    return p1_job(run, name, "MC_Rel", sc, scope2=sc2,
-                  nontrivial_keys=("rel.inv", "rel.scale", "rel.affine", "rel.neg", "rel.rsi"))
+    run.submit(p1_job, name, "MC_Rel", sc, scope2=sc2,
+               nontrivial_keys=("rel.inv", "rel.scale", "rel.affine", "rel.neg", "rel.rsi"))
 
 def c12_cfgs(n):
     v = cfgs(["HLNormalizer", "Vsct", "CorrelationTrendIndicator", "NoiseEliminationTechnology", "Rsi", "MyRSI", "LaguerreRSI", "Vst", "Roc",
@@ -185,6 +185,161 @@ def c12(tier):
     rel_job(run, "pos-scale3", "C12", pos, [1, 2, 4, 7], 1, 6 if tier == "quick" else 8, [3, 1], [0, 1], "scale")
     return run.finish("every input sequence over the alphabet up to maxlen, run twice through the real view (x and a*x+b); "
                       "non-trivial = states in which the statement fixes a relation, the window is not flat and both runs report a value")
+
+@check("C03")
+def c03(tier):
+    run = Run("C03", tier, "model_checking")
+    W = ["Sma", "Cumulative", "Min", "Max", "Roc", "WelfordOnline", "Vst", "Vsct", "HLNormalizer", "BinaryEntropy", "CenterOfGravity",
+         "CorrelationTrendIndicator", "NoiseEliminationTechnology", "Rsi", "MyRSI", "Alma"]
+    def cf(n):
+        v = cfgs(W, [n])
+        if n >= 3:
+            v += [{"k": "PolarizedFractalEfficiency", "n": n, "c": [E, sma(2)]}, {"k": "PolarizedFractalEfficiency", "n": n, "c": [E, sma(3)]}]
+        return v
+    pairs = [([], [7]), ([100], [-50, 7]), ([7, 100, -50], [100]), ([-50, -50, 100, 7, 100], [7, 7])]
+    if tier != "quick":
+        pairs += [([100, 7], [7, 100]), ([1000000, -999999, 3], []), ([5] * 9, [100, -50] * 6)]
+    plan = [(1, 4), (2, 6), (3, 7)] if tier == "quick" else [(1, 5), (2, 7), (3, 8), (4, 9), (5, 10)]
+    for n, L in plan:
+        A = [-2, 0, 1, 3] if L <= 5 else ([-2, 0, 3] if L <= 8 else [0, 3])
+        for i, (p1, p2) in enumerate(pairs):
+            mm = max([abs(x) for x in p1 + p2 + A])
+            sc = {"cfgs": cf(n), "alphabet": A, "unit": 1, "maxlen": L, "prefix": p1, "maxmag": mm}
+            sc2 = dict(sc); sc2["prefix"] = p2
+            run.submit(p1_job, "mem-n%d-p%d" % (n, i), "MC_C03", sc, scope2=sc2, nontrivial_keys=("agree",))
+    return run.finish("two real runs with different prefixes (lengths 0..12, magnitudes up to 1e6) and every common suffix over the alphabet; "
+                      "non-trivial = states with at least K common values in which the view is not holding")
+
+def c10_cfgs(n):
+    v = cfgs(["Sma", "Ema", "Alma", "Cumulative", "SuperSmoother", "CyberCycle"], [n])
+    v += [{"k": "RoofingFilter", "n": n, "m": 2}, {"k": "Ema", "n": n, "alpha": [1, 1]}]
+    return v
+LAG = [{"k": "LaguerreFilter", "g": g} for g in ([0, 1], [1, 2], [3, 4])]
+
+@check("C10")
+def c10(tier):
+    run = Run("C10", tier, "model_checking")
+    B = [-3, -2, -1, 0, 1, 2, 3]
+    combos = [[1, 1], [1, -1], [2, -1], [-2, 1]]
+    plan = [(1, 4), (2, 4), (3, 5)] if tier == "quick" else [(1, 5), (2, 5), (3, 5), (4, 6), (5, 6)]
+    for n, L in plan:
+        cf = c10_cfgs(n) + (LAG if n == 1 else [])
+        run.submit(pair_job, "add-n%d" % n, {"cfgs": cf, "alphabet": B, "pair_alphabet": [-1, 0, 1], "combos": combos, "unit": 1, "maxlen": L})
+        for a in ([-2, 1], [3, 1], [0, 1], [1, 3]):
+            rel_job(run, "homog-n%d-a%d_%d" % (n, a[0], a[1]), "C10", cf, [-2, 0, 1, 3], 1, min(L + 1, 6), a, [0, 1], "scale")
+    return run.finish("pairs of input sequences (x, y) over {-1,0,1} with a*x+b*y for four (a,b), and every sequence with its multiple a*x "
+                      "(a = -2, 3, 0, 1/3), each run through the real view; non-trivial = states where all runs report a value")
+
+WINDOWED = ["Sma", "Cumulative", "Min", "Max", "WelfordOnline", "Vst", "Vsct", "HLNormalizer", "Roc", "BinaryEntropy", "Rsi", "MyRSI",
+            "CenterOfGravity", "CorrelationTrendIndicator", "NoiseEliminationTechnology", "Alma", "Ema", "LaguerreRSI", "CyberCycle",
+            "SuperSmoother", "TrendFlex", "ReFlex"]
+
+def with_child(cfg, inner):
+    """the same outer view over `inner` instead of Echo (first child slot)"""
+    d = dict(cfg)
+    c = list(d.get("c", []))
+    if c:
+        c[0] = inner
+    else:
+        c = [inner]
+    d["c"] = c
+    return d
+
+def catalogue(n, positive=False, m=2):
+    """every kind of view of the crate with window n over Echo (positive: include the positive-domain views)"""
+    v = cfgs(WINDOWED, [n])
+    v += [{"k": "RoofingFilter", "n": n, "m": m}, {"k": "EhlersFisherTransform", "n": n, "c": [E, ema(2)]},
+          {"k": "PolarizedFractalEfficiency", "n": n, "c": [E, ema(2)]}, {"k": "PolarizedFractalEfficiency", "n": n, "c": [E, sma(2)]},
+          {"k": "LaguerreFilter", "g": [1, 2]}, {"k": "WelfordRolling"}, E, {"k": "Constant", "v": [3, 2]},
+          {"k": "GTE", "v": [1, 2]}, {"k": "LTE", "v": [1, 2]}, {"k": "Tanh"},
+          {"k": "Add", "c": [E, sma(n)]}, {"k": "Subtract", "c": [sma(n), E]}, {"k": "Multiply", "c": [E, {"k": "Roc", "n": n}]},
+          {"k": "Divide", "c": [E, {"k": "Constant", "v": [3, 2]}]}]
+    if positive:
+        v += [{"k": "Drawdown"}, {"k": "LnReturn"}, {"k": "Divide", "c": [sma(n), E]}]
+    return v
+
+def label(cfg):
+    k = cfg.get("k", "?")
+    inner = [c.get("k") for c in cfg.get("c", []) if c.get("k") not in ("Echo",)]
+    return k + ("(" + ",".join(inner) + ")" if inner else "")
+
+@check("C07")
+def c07(tier):
+    run = Run("C07", tier, "model_checking")
+    def bounded(n):
+        v = cfgs(["Rsi", "MyRSI", "HLNormalizer", "CorrelationTrendIndicator", "NoiseEliminationTechnology", "LaguerreRSI", "BinaryEntropy",
+                  "WelfordOnline", "Vsct", "Min", "Max", "Sma", "Alma"], [n])
+        v += [E, {"k": "Tanh"}, {"k": "GTE", "v": [1, 2]}, {"k": "LTE", "v": [1, 2]}, {"k": "WelfordRolling"},
+              {"k": "EhlersFisherTransform", "n": n, "c": [E, ema(2)]}, {"k": "EhlersFisherTransform", "n": n, "c": [E, E]}]
+        if n >= 3:
+            v += [{"k": "PolarizedFractalEfficiency", "n": n, "c": [E, ema(2)]}, {"k": "PolarizedFractalEfficiency", "n": n, "c": [E, sma(3)]}]
+        return v
+    plan = [(2, 5), (3, 6), (4, 7)] if tier == "quick" else [(2, 6), (3, 7), (4, 8), (5, 9), (6, 10)]
+    for n, L in plan:
+        A = [-2, 0, 1, 3] if L <= 6 else [-2, 0, 3]
+        run.submit(p1_job, "rng-int-n%d" % n, "MC_Obs", {"prop": "C07", "cfgs": bounded(n), "alphabet": A, "unit": 1, "maxlen": L},
+               nontrivial_keys=None, view_label=label)
+        run.submit(p1_job, "rng-dec-n%d" % n, "MC_Obs", {"prop": "C07", "cfgs": bounded(n), "alphabet": [-7, 0, 3, 12][:len(A)], "unit": 10, "maxlen": L},
+               nontrivial_keys=None, view_label=label)
+        pos = [{"k": "Drawdown"}, {"k": "CenterOfGravity", "n": n}, {"k": "Min", "n": n}, {"k": "Max", "n": n}, sma(n), {"k": "Alma", "n": n}, E]
+        run.submit(p1_job, "rng-pos-n%d" % n, "MC_Obs", {"prop": "C07", "cfgs": pos, "alphabet": [1, 3, 10, 11][:len(A)], "unit": 10, "maxlen": L},
+               nontrivial_keys=None, view_label=label)
+    return run.finish("every input sequence over the alphabet up to maxlen for every bounded view; non-trivial = states in which a bounded "
+                      "view reports a value (the range predicate is evaluated there)")
+
+@check("C08")
+def c08(tier):
+    run = Run("C08", tier, "model_checking")
+    plan = [(1, 4), (2, 5), (3, 6), (4, 7)] if tier == "quick" else [(1, 5), (2, 6), (3, 7), (4, 8), (5, 9), (6, 10)]
+    for n, L in plan:
+        for prof in ("dev", "release"):
+            if prof == "release" and tier == "quick" and n == 4:
+                continue
+            run.submit(p1_job, "rdy-n%d-%s" % (n, prof), "MC_Obs", {"prop": "C08", "cfgs": catalogue(n), "alphabet": [-1, 0, 1] if L <= 7 else [-1, 1], "unit": 1, "maxlen": L},
+                   profile=prof, nontrivial_keys=("ready.yes", "ready.no"), view_label=label)
+            run.submit(p1_job, "rdy-flat-n%d-%s" % (n, prof), "MC_Obs", {"prop": "C08", "cfgs": catalogue(n), "alphabet": [0, 5], "unit": 1, "maxlen": L + 2},
+                   profile=prof, nontrivial_keys=("ready.yes", "ready.no"), view_label=label)
+            run.submit(p1_job, "rdy-pos-n%d-%s" % (n, prof), "MC_Obs", {"prop": "C08", "cfgs": catalogue(n, positive=True), "alphabet": [1, 2, 4], "unit": 1, "maxlen": L},
+                   profile=prof, nontrivial_keys=("ready.yes", "ready.no"), view_label=label)
+    # chains: an inner view delays / thins what the outer one is delivered
+    inners = [sma(2), {"k": "Roc", "n": 1}, {"k": "LaguerreRSI", "n": 2}] + ([sma(3), {"k": "Rsi", "n": 2}] if tier != "quick" else [])
+    for inner in inners:
+        ch = [with_child(o, inner) for o in catalogue(2) if o["k"] not in ("Echo", "Constant", "Add", "Subtract", "Multiply", "Divide")]
+        run.submit(p1_job, "rdy-chain-%s%s" % (inner["k"], inner.get("n", "")), "MC_Obs", {"prop": "C08", "cfgs": ch, "alphabet": [-1, 0, 1], "unit": 1, "maxlen": 6},
+               nontrivial_keys=("ready.yes", "ready.no", "undelivered"), view_label=label)
+    ch = [with_child(o, {"k": "LnReturn"}) for o in catalogue(2) if o["k"] not in ("Echo", "Constant", "Add", "Subtract", "Multiply", "Divide")]
+    run.submit(p1_job, "rdy-chain-LnReturn", "MC_Obs", {"prop": "C08", "cfgs": ch, "alphabet": [1, 2, 4], "unit": 1, "maxlen": 6},
+           nontrivial_keys=("ready.yes", "ready.no", "undelivered"), view_label=label)
+    return run.finish("every input sequence over the alphabet up to maxlen for every view of the catalogue (debug and release builds) and "
+                      "two-level chains; non-trivial = states in which the documentation fixes readiness (yes/no) or the view was delivered nothing")
+
+@check("C15")
+def c15(tier):
+    run = Run("C15", tier, "model_checking")
+    nk = ("nopanic",)
+    for prof in ("dev", "release"):
+        for n, L in ([(1, 4), (2, 5), (3, 6), (4, 7)] if tier == "quick" else [(1, 5), (2, 6), (3, 7), (4, 8), (5, 9)]):
+            run.submit(p1_job, "np-n%d-%s" % (n, prof), "MC_Obs", {"prop": "C15", "cfgs": catalogue(n), "alphabet": [-1, 0, 1], "unit": 1, "maxlen": L},
+                   profile=prof, nontrivial_keys=nk, view_label=label)
+            run.submit(p1_job, "np-pos-n%d-%s" % (n, prof), "MC_Obs", {"prop": "C15", "cfgs": catalogue(n, positive=True), "alphabet": [1, 2, 4], "unit": 2, "maxlen": L},
+                   profile=prof, nontrivial_keys=nk, view_label=label)
+        # windows longer than the stream / long windows: constant and two-symbol streams (index arithmetic does not depend on data)
+        big = list(range(5, 65)) if tier != "quick" else [5, 6, 7, 8, 12, 16, 31, 32, 33, 63, 64]
+        allbig = [c for n in big for c in catalogue(n, m=(n % 3) + 1) if "n" in c or c["k"] in ("Add", "Subtract", "Multiply")]
+        for a in ([0], [1]):
+            run.submit(p1_job, "np-const%d-%s" % (a[0], prof), "MC_Obs", {"prop": "C15", "cfgs": allbig, "alphabet": a, "unit": 1, "maxlen": 68},
+                   profile=prof, nontrivial_keys=nk, view_label=label)
+        mid = [c for n in (5, 6, 7, 8) for c in catalogue(n) if "n" in c]
+        run.submit(p1_job, "np-mid-%s" % prof, "MC_Obs", {"prop": "C15", "cfgs": mid, "alphabet": [-1, 2], "unit": 1, "maxlen": 11},
+               profile=prof, nontrivial_keys=nk, view_label=label)
+        # two-level chains
+        inners = [sma(2), {"k": "Roc", "n": 1}, {"k": "Cumulative", "n": 1}] if tier == "quick" else [c for c in catalogue(2) if c["k"] not in ("Constant",)]
+        for i, inner in enumerate(inners):
+            ch = [with_child(o, inner) for n in (1, 3) for o in catalogue(n) if o["k"] not in ("Echo", "Constant")]
+            run.submit(p1_job, "np-chain%d-%s" % (i, prof), "MC_Obs", {"prop": "C15", "cfgs": ch, "alphabet": [-1, 0, 1], "unit": 1, "maxlen": 5},
+                   profile=prof, nontrivial_keys=nk, view_label=label)
+    return run.finish("every input sequence over the alphabet up to maxlen, for every view of the catalogue, windows 1..64, two-level chains, "
+                      "debug-assertion and release builds; non-trivial = observations of accepted configurations (each is checked for panic)")
 
 # ------------------------------------------------------------------------------------------------
 def setup():
